@@ -1,4 +1,5 @@
 import DaliVerif.Model.Decode
+import DaliVerif.Model.Construct
 import DaliVerif.Gen.Commands
 import DaliVerif.Spec.AddressSpec
 import DaliVerif.Spec.EventSpec
@@ -94,7 +95,124 @@ def runMapOps (ops : List String) : Option String := do
     | _ => none
   pure (",".intercalate out)
 
+def parseArg (s : String) : Option Arg :=
+  if s.startsWith "A:" then (parseAddr (s.drop 2).copy).map .addr
+  else if s.startsWith "I:" then (parseInst (s.drop 2).copy).map .inst
+  else (parseVal? s).map .val
+
+def findStd (n : String) : Option StdClass := (Gen.tables.stdOpcodes.find? (fun e => e.2.name == n)).map (·.2)
+def findSpecial (n : String) : Option SpecialClass :=
+  (Gen.tables.specialOpcodes.find? (fun e => e.2.name == n)).map (·.2)
+def findDev (n : String) : Option DevClass := (Gen.tables.devOpcodes.find? (fun e => e.2.name == n)).map (·.2)
+def findInst (n : String) : Option DevClass := (Gen.tables.instOpcodes.find? (fun e => e.2.name == n)).map (·.2)
+def findDevSpecial (n : String) : Option DevSpecialClass :=
+  Gen.tables.devCommands.findSome? fun e =>
+    match e with
+    | .special c => if c.name == n then some c else none
+    | _ => none
+
+/-- construct, assemble the frame, decode it back under the object's own context -/
+def fmtBuilt (r : PyRes Cmd) : String :=
+  match r with
+  | .error e => "err " ++ e.name
+  | .ok c =>
+    match encode c with
+    | .error e => "err " ++ e.name
+    | .ok f =>
+      let back := decode Gen.tables f.bits f.data (dtOf c) (mapFor c)
+      s!"ok {className c}|{f.bits} {f.data}|{us (render c)}|{if back == c then 1 else 0}"
+
+def optNat (s : String) : Option (Option Nat) := if s == "-" then some none else (parseNat? s).map some
+
+/-- keyword combinations of `_Event.__init__` -/
+def eventSrcOfKw (sa inum ig dg : Option Nat) : PyRes EventSrc :=
+  match sa with
+  | some sa =>
+      if dg.isSome then .error .ValueError else if ig.isSome then .error .ValueError else
+      match inum with
+      | none => .ok (.device sa)
+      | some n => .ok (.deviceInstance sa n)
+  | none =>
+    match dg with
+    | some g => if inum.isSome then .error .ValueError else if ig.isSome then .error .ValueError
+        else .ok (.deviceGroup g)
+    | none =>
+      match ig with
+      | some g => if inum.isSome then .error .ValueError else .ok (.instanceGroup g)
+      | none =>
+        match inum with
+        | some n => .ok (.inst n)
+        | none => .error .ValueError
+
+def buildEvent (cls : String) (src : EventSrc) (data : String) : PyRes Cmd :=
+  match Gen.tables.pushEvents.find? (fun e => e.2.name == cls) with
+  | some e => .ok (.event cls 1 src (.pushbutton e.2))
+  | none =>
+    match Gen.tables.instanceTypes.find? (fun e => e.2.name == cls) with
+    | some (t, et) =>
+      match et.kind with
+      | .occupancy =>
+          if data == "-" then .error .ValueError else
+          match data.splitOn ":" with
+          | ["occ", fl] =>
+              match fl.splitOn "," with
+              | [a, b, c, d] => .ok (.event cls t src (.occupancy (a == "1") (b == "1") (c == "1") (d == "1")))
+              | _ => .error .TypeError
+          | _ =>
+            match parseNat? data with
+            | some x => .ok (.event cls t src (.occupancy (x &&& 1 == 1) (x &&& 2 == 2) (x &&& 4 == 4) (x &&& 8 == 8)))
+            | none => .error .TypeError
+      | .light =>
+          match parseNat? data with
+          | some x => .ok (.event cls t src (.light x))
+          | none => .error .ValueError
+      | _ => .error .NotImplementedError
+    | none => .error .NotImplementedError
+
 def handle : List String → String
+  | "mk" :: "std" :: n :: args =>
+      match findStd n, args.mapM parseArg with
+      | some c, some args => fmtBuilt (constructStd c args)
+      | _, _ => "bad-op"
+  | "mk" :: "dapc" :: _ :: args =>
+      match args.mapM parseArg with
+      | some args => fmtBuilt (constructDapc args)
+      | none => "bad-op"
+  | "mk" :: "special" :: n :: args =>
+      match findSpecial n, args.mapM parseArg with
+      | some c, some args => fmtBuilt (constructSpecial c args)
+      | _, _ => "bad-op"
+  | "mk" :: "shortSpecial" :: n :: args =>
+      match findSpecial n, args.mapM parseArg with
+      | some c, some args => fmtBuilt (constructShortSpecial c args)
+      | _, _ => "bad-op"
+  | ["mk", "initialise", n, b, a] =>
+      match findSpecial n, parseVal? b, parseVal? a with
+      | some c, some b, some a => fmtBuilt (constructInitialise c b a)
+      | _, _, _ => "bad-op"
+  | "mk" :: "devStd" :: n :: args =>
+      match findDev n, args.mapM parseArg with
+      | some c, some args => fmtBuilt (constructDevStd c args)
+      | _, _ => "bad-op"
+  | "mk" :: "devInst" :: n :: args =>
+      match findInst n, args.mapM parseArg with
+      | some c, some args => fmtBuilt (constructDevInst c args)
+      | _, _ => "bad-op"
+  | "mk" :: "devSpecial" :: n :: args =>
+      match findDevSpecial n, args.mapM parseArg with
+      | some c, some args => fmtBuilt (constructDevSpecial c args)
+      | _, _ => "bad-op"
+  | ["mkev", cls, sa, inum, ig, dg, data] =>
+      match optNat sa, optNat inum, optNat ig, optNat dg with
+      | some sa, some inum, some ig, some dg =>
+          fmtBuilt (do
+            let src ← eventSrcOfKw sa inum ig dg
+            if cls.startsWith "unknown:" then
+              match parseInt? (cls.drop 8).copy, parseNat? data with
+              | some t, some d => pure (.unknownEvent t src d)
+              | _, _ => .error .NotImplementedError
+            else buildEvent cls src data)
+      | _, _, _, _ => "bad-op"
   | ["obs", data, dt, m] =>
       match parseNat? data, parseNat? dt, parseMap m with
       | some data, some dt, some m => fmtObs (Spec.observe (decode Gen.tables 24 data dt m))
